@@ -36,6 +36,8 @@ type Config struct {
 	Mnemonics []string
 	// HotSalt changes the hot (communication) keys without changing the mnemonics.
 	HotSalt string
+	// PasswordSuffix is appended to every operator's password ("operator-password-<i>"), e.g. to make it a long passphrase.
+	PasswordSuffix string
 }
 
 // World is n real nodes + n real machines around one board.
@@ -49,7 +51,9 @@ type World struct {
 	Names     []string
 	Mnemonics []string
 	HotSalt   string
-	closed    bool
+	// PasswordSuffix: see Config
+	PasswordSuffix string
+	closed         bool
 	// sharedMachines: the machines belong to the fixture, not to this world (never closed here)
 	sharedMachines bool
 }
@@ -82,7 +86,7 @@ func passwordOf(i int) []byte { return []byte(fmt.Sprintf("operator-password-%d"
 
 // New creates a fresh world: empty board, n nodes (polling started) and n machines restored from their mnemonics.
 func New(cfg Config) (*World, error) {
-	w := &World{N: cfg.N, Root: cfg.Root, Seed: cfg.Seed, Board: NewBoard(), Mnemonics: cfg.Mnemonics, HotSalt: cfg.HotSalt}
+	w := &World{N: cfg.N, Root: cfg.Root, Seed: cfg.Seed, Board: NewBoard(), Mnemonics: cfg.Mnemonics, HotSalt: cfg.HotSalt, PasswordSuffix: cfg.PasswordSuffix}
 	for i := 0; i < cfg.N; i++ {
 		name := fmt.Sprintf("node_%d", i)
 		if i < len(cfg.Names) {
@@ -100,7 +104,7 @@ func New(cfg Config) (*World, error) {
 			return nil, err
 		}
 		w.Nodes = append(w.Nodes, n)
-		m, err := OpenMachine(w.machineDir(i), w.resultDir(i), w.MnemonicOf(i), passwordOf(i), true)
+		m, err := OpenMachine(w.machineDir(i), w.resultDir(i), w.MnemonicOf(i), append(passwordOf(i), w.PasswordSuffix...), true)
 		if err != nil {
 			w.Close()
 			return nil, err
@@ -235,6 +239,30 @@ func (w *World) Answer(i int, op *types.Operation) (*types.Operation, error) {
 	return &res, nil
 }
 
+// AnswerWith is Answer with a hook that may alter the machine's result before the operator submits it (a faulty or
+// hostile airgapped machine whose hot node is honest: the altered messages are correctly signed by the participant).
+func (w *World) AnswerWith(i int, op *types.Operation, alter func(res *types.Operation)) (*types.Operation, error) {
+	n := w.Nodes[i]
+	file, err := n.OperationFile(op.ID)
+	if err != nil {
+		return nil, fmt.Errorf("getOperation: %w", err)
+	}
+	resFile, err := w.Machines[i].Process(file)
+	if err != nil {
+		return nil, fmt.Errorf("airgapped: %w", err)
+	}
+	var res types.Operation
+	if err := json.Unmarshal(resFile, &res); err != nil {
+		return nil, fmt.Errorf("result file: %w", err)
+	}
+	alter(&res)
+	resFile, _ = json.Marshal(res)
+	if err := n.SubmitResult(resFile); err != nil {
+		return &res, fmt.Errorf("submit: %w", err)
+	}
+	return &res, nil
+}
+
 // AnswerAll handles all pending operations of participant i; returns how many were answered.
 func (w *World) AnswerAll(i int) (int, error) {
 	ops, err := w.Nodes[i].Operations()
@@ -261,6 +289,32 @@ func (w *World) Quiesce(maxRounds int) error {
 				return err
 			}
 			progress += k
+		}
+		if progress == 0 {
+			return nil
+		}
+	}
+	return fmt.Errorf("no quiescence after %d rounds", maxRounds)
+}
+
+// QuiesceRound is Quiesce restricted to the operations of one round (operations of other rounds stay pending).
+func (w *World) QuiesceRound(round string, maxRounds int) error {
+	for r := 0; r < maxRounds; r++ {
+		progress := w.PollAll()
+		for i := range w.Nodes {
+			ops, err := w.Nodes[i].Operations()
+			if err != nil {
+				return err
+			}
+			for _, op := range ops {
+				if op.DKGIdentifier != round {
+					continue
+				}
+				if _, err := w.Answer(i, op); err != nil {
+					return fmt.Errorf("participant %d operation %s (%s): %w", i, op.ID, op.Type, err)
+				}
+				progress++
+			}
 		}
 		if progress == 0 {
 			return nil
@@ -329,7 +383,7 @@ func (w *World) PostSigned(i int, round, event string, data []byte, to string) s
 // the same user name, as after the loss of the old device. Machines of the other participants keep running.
 func (w *World) ReplaceMachine(i int, tag string) error {
 	w.Machines[i].Close()
-	m, err := OpenMachine(w.machineDir(i)+"-"+tag, w.resultDir(i)+"-"+tag, MnemonicFromEntropy(derive(w.Seed, "replaced-machine-"+tag, i)), passwordOf(i), true)
+	m, err := OpenMachine(w.machineDir(i)+"-"+tag, w.resultDir(i)+"-"+tag, MnemonicFromEntropy(derive(w.Seed, "replaced-machine-"+tag, i)), append(passwordOf(i), w.PasswordSuffix...), true)
 	if err != nil {
 		return err
 	}
